@@ -474,9 +474,11 @@ structure CSt where
   nSync : Nat := 0
   nQuery : Nat := 0
   nReset : Nat := 0
+  outside : Bool := false      -- a call with arguments outside their spaces was seen (the theorems' hypothesis `FOp.WF` fails)
 
 def CSt.apply (st : CSt) (op : FOp) : CSt :=
   { st with tabs := mapIdxFrom (fun i (t : KTab) => t.step st.cfg (op.toKOp i)) 0 st.tabs,
+            outside := st.outside || !(op.validB st.g),
             ts := (match op with | .record .. => st.ts + 1 | .reset => 0 | _ => st.ts), opIdx := st.opIdx + 1 }
 
 def CSt.world (st : CSt) : CoopWorld := { ts := st.ts, tables := st.tabs.map (·.world) }
@@ -600,6 +602,8 @@ def coophist : P String := do
        idx := coopIdx g i, ctx := ctxOf g i, world := World.init (g.getSize i) (g.S.getD i 0) (fun _ => 0), oracle := Oracle.init, rows := [] } : KTab))
   let v0 : Verdict := {}
   let v0 := v0.diffIf (sizes != (List.range nf).map g.getSize) s!"DDNGraph.getSize model={(List.range nf).map g.getSize} impl={sizes}"
+  -- the graph was accepted by the library's `push`: it must satisfy what the theorems assume (`parentsOKB_iff`)
+  let v0 := v0.failIf (!((List.range nf).all (parentsOKB g))) s!"DDNGraph.push accepted_malformed_parent_set"
   let st0 : CSt := { g := g, cfg := cfg, tabs := tabs, ts := 0, opIdx := 0, v := v0 }
   let rec loop : Nat → CSt → P CSt
     | 0, st => pure st
@@ -609,7 +613,8 @@ def coophist : P String := do
   let multi := g.parents.any (fun p => p.agents.length ≥ 2)
   let tag := "coophist" ++ (if nops ≤ 2 then " trivial" else "") ++ (if multi then " multiagent" else "") ++ (if st.nReset > 0 then " reset" else "")
              ++ (if st.nQuery > 0 then " query" else "")
-  pure ({ st.v with tag := tag }).render
+  if st.outside && st.v.fails.isEmpty then pure "skip arguments_outside_documented_precondition"
+  else pure ({ st.v with tag := tag }).render
 
 /-- Factored::Bandit::Experience -/
 def fbOp (A : List Nat) (st : CSt) : P CSt := do
